@@ -235,6 +235,78 @@ theorem pinv_sound {α : Type} (hd : 0 < d) (t : HT d α) (hh : Honest t.cls t.h
   · intro x y h
     exact applyH_left_inverse (H := B) (B := t.h) (by rw [hinv, Matrix.mul_nonsing_inv _ hu]) h
 
+/-! ### what the inverse FORMULAS need: the structural zero pattern only
+
+`Honest` is an exact invariant: a rotation matrix made of floats is orthogonal only up to rounding, a fitted alignment
+carries 1e-17 in its bottom row, so the rational matrices the driver executes for `Rotation`, `Similarity` and the
+alignments mostly do NOT satisfy it (the evidence counts how many do).  That the result of `pseudoinverse()` carries the
+inverse matrix, exchanges the end points and undoes `apply` from both sides needs much less: nothing at all for the
+classes that call `np.linalg.inv(h_matrix)`, and for the closed forms the zero pattern their constructors produce
+exactly - which every float member has.  `pinv_sound` adds: an EXACT member has an exact member as its inverse. -/
+
+/-- the structural part of the class invariants: what the coded closed forms read off the matrix -/
+def Structural : Cls → Mat (d + 1) → Prop
+  | .rotation, H => IsAffineM H ∧ transPart H = fun _ => 0
+  | .translation, H => Honest .translation H
+  | .uniformScale, H => Honest .uniformScale H
+  | .nonUniformScale, H => Honest .nonUniformScale H
+  | _, _ => True
+
+theorem structural_of_honest (c : Cls) (H : Mat (d + 1)) (h : Honest c H) : Structural c H := by
+  cases c <;> first | trivial | exact h | exact ⟨h.1, h.2.2⟩
+
+theorem pinvH_inverts (hd : 0 < d) (c : Cls) (H : Mat (d + 1)) (hs : Structural c H) (hdet : (toM H).det ≠ 0) :
+    ∃ B, pinvH c H = some B ∧ toM B = (toM H)⁻¹ := by
+  have generic : ∀ c' : Cls, pinvH c' H = inv H → ∃ B, pinvH c' H = some B ∧ toM B = (toM H)⁻¹ := by
+    intro c' h2
+    exact ⟨ofM (toM H)⁻¹, by rw [h2, inv_eq_some H hdet], by simp⟩
+  cases c with
+  | rotation =>
+    obtain ⟨ha, ht⟩ := hs
+    obtain ⟨hdL, e⟩ := affine_inverse ha hdet
+    refine ⟨ofAffine (ofM (toM (linPart H))⁻¹) fun _ => 0, ?_, ?_⟩
+    · simp [pinvH, pinvHBy, implOf, inv_eq_some _ hdL]
+    · rw [e, ht, mulVec_zero', neg_zero_fun]
+  | translation => obtain ⟨B, h1, h2, _⟩ := pinvH_sound hd .translation H hs hdet; exact ⟨B, h1, h2⟩
+  | uniformScale => obtain ⟨B, h1, h2, _⟩ := pinvH_sound hd .uniformScale H hs hdet; exact ⟨B, h1, h2⟩
+  | nonUniformScale => obtain ⟨B, h1, h2, _⟩ := pinvH_sound hd .nonUniformScale H hs hdet; exact ⟨B, h1, h2⟩
+  | homogeneous => exact generic _ rfl
+  | affine => exact generic _ rfl
+  | similarity => exact generic _ rfl
+  | alignmentAffine => exact generic _ rfl
+  | alignmentSimilarity => exact generic _ rfl
+  | alignmentRotation => exact generic _ rfl
+  | alignmentTranslation => exact generic _ rfl
+  | alignmentUniformScale => exact generic _ rfl
+
+/-- PROPERTY (homogeneous family, every class and dimension, NO exactness assumed): for a non-singular member with the
+structural zero pattern of its class - every matrix of floats the code can hold - `pseudoinverse()` exists, has the same
+class, carries exactly the inverse matrix, has source and target exchanged and undoes `apply` from both sides -/
+theorem pinv_inverts {α : Type} (hd : 0 < d) (t : HT d α) (hs : Structural t.cls t.h) (hdet : (toM t.h).det ≠ 0) :
+    ∃ u, pinv t = some u ∧ u.cls = t.cls ∧ toM u.h = (toM t.h)⁻¹ ∧
+      u.ends = t.ends.map (fun e => (e.2, e.1)) ∧
+      (∀ x y, t.apply x = some y → u.apply y = some x) ∧
+      (∀ x y, u.apply y = some x → t.apply x = some y) := by
+  obtain ⟨B, hB, hinv⟩ := pinvH_inverts hd t.cls t.h hs hdet
+  have hu : IsUnit (toM t.h).det := isUnit_iff_ne_zero.mpr hdet
+  refine ⟨{ cls := t.cls, h := B, ends := t.ends.map fun e => (e.2, e.1) }, by simp [pinv, hB], rfl, hinv, rfl, ?_, ?_⟩
+  · intro x y h
+    exact applyH_left_inverse (H := t.h) (B := B) (by rw [hinv, Matrix.nonsing_inv_mul _ hu]) h
+  · intro x y h
+    exact applyH_left_inverse (H := B) (B := t.h) (by rw [hinv, Matrix.mul_nonsing_inv _ hu]) h
+
+/-- non-vacuity beyond `Honest`: a "rotation" whose entries are rounded (3/5, 4/5 perturbed: not orthogonal) is
+structural, is NOT an exact member, and `pinv_inverts` applies to it -/
+example : Structural (d := 2) .rotation (m3 (3/5) (-4/5) 0 (4/5) (601/1000) 0 0 0 1) ∧
+    ¬ Honest (d := 2) .rotation (m3 (3/5) (-4/5) 0 (4/5) (601/1000) 0 0 0 1) := by
+  refine ⟨⟨⟨fun j => ?_, by simp [m3]⟩, ?_⟩, ?_⟩
+  · fin_cases j <;> simp [m3]
+  · funext i; fin_cases i <;> simp [transPart, m3]
+  · intro h
+    have := congrFun (congrFun h.2.1 1) 1
+    simp [linPart, m3, Matrix.mul_apply, Fin.sum_univ_two, Matrix.one_apply] at this
+    norm_num at this
+
 /-- an affine member is defined on every point, so the round trips above cover the whole space -/
 theorem affine_total {α : Type} (t : HT d α) (h : IsAffineM t.h) (x : Vec d) : (t.apply x).isSome :=
   applyH_affine_isSome h x
